@@ -268,6 +268,14 @@ def run(ctx):
     for nm, w, xmax, ys, dw in lg:
         gcfg2 = fw.write_cfg(ctx.path("MC_GcdLehmerAlg_%s.cfg" % nm), invariants=["GcdOK"], constants={"W": w, "XMax": xmax, "YStride": ys, "Dword": dw})
         ctx.mc("mc-lehmer-" + nm, SPEC, "GcdLehmerAlg.tla", gcfg2, workers=4, timeout=2400)
+    # the extended gcd on top of it: the cofactor buffers with their length fields (Euclidean and Lehmer updates, the
+    # one-word ending), the exact division for the second coefficient, and the word-sized extended gcd of dashu-base
+    xg = [("w3", 3, 1023, 1, "FALSE"), ("w3d", 3, 1023, 2, "TRUE")] + ([] if ctx.quick else [("w4", 4, 8191, 3, "FALSE"), ("w3x", 3, 4095, 3, "FALSE")])
+    for nm, w, xmax, ys, dw in xg:
+        xcfg = fw.write_cfg(ctx.path("MC_GcdExtAlg_%s.cfg" % nm), spec="ExtSpec", invariants=["GcdExtOK"], constants={"W": w, "XMax": xmax, "YStride": ys, "Dword": dw})
+        ctx.mc("mc-gcdext-" + nm, SPEC, "GcdExtAlg.tla", xcfg, workers=4, timeout=3000)
+    pcfg = fw.write_cfg(ctx.path("MC_GcdExtAlg_prim.cfg"), spec="PrimSpec", invariants=["PrimOK"], constants={"W": ctx.pick(7, 9), "XMax": 0, "YStride": 1, "Dword": "FALSE"})
+    ctx.mc("mc-gcdext-prim", SPEC, "GcdExtAlg.tla", pcfg, workers=4, timeout=2400)
 
     # 2. spec -> impl: the partition enumerated by TLC
     step16 = ctx.pick(32, 1)
@@ -306,8 +314,15 @@ def run(ctx):
     ctx.scope.update({"lehmer_dword_guess_len_words": dwl})
     t_leh = ctx.drive(std, ["--seed", str(ctx.seed + 3), "--n", "0", "--lehmer", str(ctx.pick(4, 12)), str(dwl + 1)], "trace-lehmer.ndjson")
     t_lehr = ctx.drive(rel, ["--seed", str(ctx.seed + 4), "--n", "0", "--lehmer", str(ctx.pick(2, 8)), str(dwl + 1)], "trace-lehmer-rel.ndjson")
+    # continued fractions with a huge partial quotient right where the tracked cofactors cross a word boundary (see GcdExtAlg)
+    ncf = ctx.pick(400, 4000)
+    ctx.scope.update({"cf_cases": 2 * ncf})
+    t_cf = ctx.drive(std, ["--seed", str(ctx.seed + 5), "--n", "0", "--cf", str(ncf)], "trace-cf.ndjson")
+    t_cfr = ctx.drive(rel, ["--seed", str(ctx.seed + 6), "--n", "0", "--cf", str(ncf)], "trace-cf-rel.ndjson")
 
     jobs = []
+    jobs += split_trace(ctx, t_cf, "cf", ctx.pick(2, 6))
+    jobs += split_trace(ctx, t_cfr, "cf-rel", ctx.pick(2, 6))
     jobs += split_trace(ctx, t_leh, "lehmer", ctx.pick(4, 6))
     jobs += split_trace(ctx, t_lehr, "lehmer-rel", ctx.pick(2, 4))
     jobs += split_trace(ctx, t_big, "big", ctx.pick(4, 6))
